@@ -15,7 +15,7 @@ ASSUMPTIONS = [
     "every variable of the description is selected (the property's scope)",
     "per path: the(desc).evaluate() twice on one query object, then an(desc) on a freshly built copy",
 ]
-BOUNDS = {"quick": dict(domains="3 (single variable), 2x2", leaves="L<=2"),
+BOUNDS = {"quick": dict(domains="3 (single variable), 2x2; empty / foreign-only domains with registry instances outside", leaves="L<=2"),
           "thorough": dict(domains="4 / 3x2", leaves="L<=3 sampled")}
 LIMITS = {"quick": dict(max_paths=8000, max_wall=90), "thorough": dict(max_paths=60000, max_wall=400)}
 FIDELITY_EVERY = {"quick": 2, "thorough": 1}
@@ -112,6 +112,15 @@ def shapes(tier, seed):
               ["or", ["cmp", "gt", ["a", "x", "a"], ["lit", 0]], ["cmp", "eq", ["a", "x", "b"], ["a", "x", "c"]]]):
         out.append(dict(EQ, cond=c, form="entity"))
         out.append(dict(EQ, cond=c, form="set_of"))
+    # domains holding NO instance of the variable's type (empty / only foreign objects) while the registry holds instances:
+    # zero solutions, whatever else exists
+    for c in (None, core[0], ["not", core[0]]):
+        for form in ("entity", "set_of"):
+            out.append(dict(ONE, pools={"X": 0}, outside={"Item": 2}, cond=c, form=form))
+            out.append(dict(ONE, pools={"X": 0}, outside={"Item": 2}, foreign={"X": 2}, cond=c, form=form))
+        out.append(dict(ONE, pools={"X": 1}, outside={"Item": 2}, foreign={"X": 1}, cond=c, form="entity"))
+    out.append(dict(TWO, pools={"X": 2, "Y": 0}, outside={"Other": 2}, cond=None))
+    out.append(dict(TWO, pools={"X": 0, "Y": 2}, outside={"Item": 1}, foreign={"X": 1}, cond=J[0]))
     for l in J:
         out.append(dict(TWO, cond=l))
         out.append(dict(TWO, cond=["not", l]))
